@@ -1,3 +1,4 @@
+import L21.Props.C01L
 import L21.Props.C10
 #print axioms L21.Gds.c10_read_rows_safe
 #print axioms L21.Gds.c10_progress
@@ -7,3 +8,5 @@ import L21.Props.C10
 #print axioms L21.Gds.c10_parser_fuel
 #print axioms L21.Gds.c10_rewritable
 #print axioms L21.Gds.c10_reencodable_partial
+#print axioms L21.Gds.c01_lazy_reader_is_model
+#print axioms L21.Gds.c10_needs_endlib_lazy
